@@ -15,7 +15,17 @@ Proved:
   the order of the faces (`mask_inside_trimesh`).
 * for a single tetrahedron with outward faces every observer strictly inside is found inside by `mask_inside_trimesh`,
   unless its test ray comes within the pass-through tolerance of an edge — and that exception is real.
-/- FULL: also check_selfintersecting and "consistent => all faces outwards" (needs: the ray test equals the geometric
+* `check_selfintersecting` (`get_intersecting_triangles` / `segments_intersect_facets`, ported in Model/MeshIntersect.lean with
+  the float32 cast, the k-d tree ball query and the absolute `eps` as written; tied by the `selfint` stream), in exact
+  arithmetic: the segment/facet primitive is SOUND (a reported pair has a common point, even one inside the open segment and
+  the facet's relative interior) and COMPLETE for proper crossings whose end points are farther than `eps` from the facet's
+  plane; the report is reindexed by a permutation of the face list, unchanged by a translation, and unchanged by a common
+  length factor applied to vertices, `r` AND `eps` — with `eps` held at its absolute default 1e-6 unit invariance fails
+  (witness proved, reproduced on the real code).  The test is NOT complete as a whole (`segfacet_misses_edge_crossing`; the radius case by reproducer on the real code): crossings
+  through an edge or a vertex of the other facet, end points within `eps` of the plane, and pairs of facets whose centroids
+  are farther apart than 1.5 × the largest corner distance are never reported.
+/- FULL: also "check_selfintersecting reports exactly the self-intersecting meshes" (false of the code: Stella octangula,
+   two spikes; see the replays) and "consistent => all faces outwards" (needs: the ray test equals the geometric
    inside predicate of a closed non-self-intersecting surface away from its faces — not shown; permutation / flip /
    derived-mesh oracle on the real class). -/
 -/
@@ -24,6 +34,7 @@ import MagpyVerif.Lemmas.MeshConn
 import MagpyVerif.Lemmas.MeshOrient
 import MagpyVerif.Lemmas.TrimeshInside
 import MagpyVerif.Lemmas.TrimeshTetra
+import MagpyVerif.Lemmas.MeshIntersect
 namespace MagpyVerif.C16
 open MagpyVerif.Mesh
 
@@ -402,5 +413,105 @@ theorem ray_through_edge_is_not_generic :
     (Kern.unitTetra_eq ▸ hgen)).1
   rw [← Kern.unitTetra_eq, Kern.unitTetra_edge_ray_outside] at h
   exact Bool.false_ne_true h
+
+/-! ### `check_selfintersecting`: `segments_intersect_facets` and `get_intersecting_triangles` (Model/MeshIntersect.lean, exact
+arithmetic: rounding function `id`) -/
+
+open Kern in
+/-- C16 (`segments_intersect_facets`, soundness): for any tolerance `eps ≥ 0` a reported (segment, facet) pair has a common
+point — no false "self-intersecting" verdict comes from this primitive in exact arithmetic.  (The code requires `eps > 0`.) -/
+theorem segfacet_sound (eps : ℝ) (heps : 0 ≤ eps) (s0 s1 : V3 ℝ) (t : Kern.Tri ℝ)
+    (h : Kern.segFacet id eps s0 s1 t = true) : ∃ p, Kern.InSegment s0 s1 p ∧ Kern.InTriangle t p :=
+  Kern.segFacet_sound_closed heps h
+
+/-- … and the common point can be taken strictly inside the segment and in the relative interior of the facet: the primitive
+reports proper crossings only -/
+theorem segfacet_sound_interior (eps : ℝ) (heps : 0 ≤ eps) (s0 s1 : V3 ℝ) (t : Kern.Tri ℝ)
+    (h : Kern.segFacet id eps s0 s1 t = true) : ∃ p, Kern.InOpenSegment s0 s1 p ∧ Kern.InTriInterior t p :=
+  Kern.segFacet_sound heps h
+
+-- non-vacuity: the segment (1/4,1/4,±1) through the facet (0,0,0),(1,0,0),(0,1,0) is reported with the default eps = 1e-6
+example : ∃ p, Kern.InSegment Kern.witS0 Kern.witS1 p ∧ Kern.InTriangle Kern.witT p :=
+  segfacet_sound (1 / 1000000) (by norm_num) _ _ _ Kern.wit_segFacet
+
+/-- C16 (`segments_intersect_facets`, completeness for proper crossings): if the open segment meets the relative interior of
+the facet and both end points are farther than `eps` from the facet's plane (as the code measures it), the pair is reported -/
+theorem segfacet_complete_proper (eps : ℝ) (heps : 0 ≤ eps) (s0 s1 : V3 ℝ) (t : Kern.Tri ℝ)
+    (h0 : eps < |Kern.planeDist id t s0|) (h1 : eps < |Kern.planeDist id t s1|)
+    (hp : ∃ p, Kern.InOpenSegment s0 s1 p ∧ Kern.InTriInterior t p) : Kern.segFacet id eps s0 s1 t = true :=
+  Kern.segFacet_complete heps h0 h1 hp
+
+-- non-vacuity: the hypotheses hold for the witness segment (plane distances ±1, crossing point (1/4,1/4,0) = t0/2 + t1/4 + t2/4)
+example : (1 / 1000000 : ℝ) < |Kern.planeDist id Kern.witT Kern.witS0| ∧ (1 / 1000000 : ℝ) < |Kern.planeDist id Kern.witT Kern.witS1| ∧
+    ∃ p, Kern.InOpenSegment Kern.witS0 Kern.witS1 p ∧ Kern.InTriInterior Kern.witT p := by
+  refine ⟨by rw [Kern.wit_g0]; norm_num, by rw [Kern.wit_g1]; norm_num, ?_⟩
+  exact segfacet_sound_interior (1 / 1000000) (by norm_num) _ _ _ Kern.wit_segFacet
+
+/- FULL: `segfacet_complete` — every segment that has a point in common with the closed facet is reported.  False: -/
+/-- the exclusions of `segfacet_complete_proper` are necessary: a segment through the midpoint of an edge of the facet meets
+the facet and is reported for NO `eps` (one signed volume is exactly 0 and `np.sign` makes 0 different from ±1).  This is how
+the Stella octangula (two interpenetrating tetrahedra whose edges cross at their midpoints) and a cube united with its copy
+shifted by half the space diagonal pass `check_selfintersecting` on the real code -/
+theorem segfacet_misses_edge_crossing :
+    ∃ (s0 s1 : V3 ℝ) (t : Kern.Tri ℝ) (p : V3 ℝ), Kern.InSegment s0 s1 p ∧ Kern.InTriangle t p ∧
+      ∀ eps : ℝ, Kern.segFacet id eps s0 s1 t = false :=
+  Kern.segFacet_misses_edge_crossing
+
+/-- C16 (`get_intersecting_triangles`): translating all vertices does not change the report (index triples in range) -/
+theorem selfint_translation_invariant (d : V3 ℝ) (r : Option ℝ) (rFactor eps : ℝ) (verts : List (V3 ℝ))
+    (tris : List (Nat × Nat × Nat)) (h : Kern.TrisInRange verts.length tris) :
+    Kern.getIntersectingTriangles id r rFactor eps (verts.map (· + d)) tris
+      = Kern.getIntersectingTriangles id r rFactor eps verts tris :=
+  Kern.getIntersectingTriangles_shift d r rFactor eps verts tris h
+
+example : 0 ∈ Kern.getIntersectingTriangles id (some 10) (3 / 2) (1 / 1000000) (Kern.witVerts.map (· + (⟨7, -2, 3⟩ : V3 ℝ))) Kern.witTris := by
+  rw [selfint_translation_invariant _ _ _ _ _ _ Kern.witTris_inRange]; exact Kern.wit_mesh_reported.1
+
+/-- C16 (`get_intersecting_triangles`): reading the triangle list in the order σ 0, σ 1, … reindexes the report by σ -/
+theorem selfint_face_order_invariant (r : Option ℝ) (rFactor eps : ℝ) (verts : List (V3 ℝ)) (tris : List (Nat × Nat × Nat))
+    (σ : Equiv.Perm ℕ) (hσ : ∀ i, σ i < tris.length ↔ i < tris.length) (k : ℕ) :
+    k ∈ Kern.getIntersectingTriangles id r rFactor eps verts (Kern.permuteTris σ tris)
+      ↔ σ k ∈ Kern.getIntersectingTriangles id r rFactor eps verts tris :=
+  Kern.getIntersectingTriangles_perm r rFactor eps verts tris σ hσ k
+
+/-- … and the verdict of `TriangularMesh.check_selfintersecting` (defaults r=None, r_factor=1.5, eps=1e-6) is the same -/
+theorem selfint_verdict_face_order_invariant (verts : List (V3 ℝ)) (tris : List (Nat × Nat × Nat))
+    (σ : Equiv.Perm ℕ) (hσ : ∀ i, σ i < tris.length ↔ i < tris.length) :
+    Kern.selfIntersecting id verts (Kern.permuteTris σ tris) = Kern.selfIntersecting id verts tris :=
+  Kern.selfIntersecting_perm verts tris σ hσ
+
+-- non-vacuity: the two faces of the witness mesh swapped; face 1 of the original is face 0 of the swapped list
+example : 0 ∈ Kern.getIntersectingTriangles id (some 10) (3 / 2) (1 / 1000000) Kern.witVerts
+    (Kern.permuteTris (Equiv.swap 0 1) Kern.witTris) := by
+  rw [selfint_face_order_invariant _ _ _ _ _ (Equiv.swap 0 1)]
+  · rw [Equiv.swap_apply_left]; exact Kern.wit_mesh_reported.2
+  · intro i
+    simp only [Kern.witTris, List.length_cons, List.length_nil]
+    rcases Nat.lt_or_ge i 2 with h | h
+    · interval_cases i <;> simp
+    · rw [Equiv.swap_apply_of_ne_of_ne (by omega) (by omega)]
+
+/-- C12 / C16 (`get_intersecting_triangles`): vertices, the optional query radius AND `eps` multiplied by the same factor
+`l > 0` give the same report — i.e. the test would be unit-free if `eps` were a relative tolerance -/
+theorem selfint_scale_covariant (l : ℝ) (hl : 0 < l) (r : Option ℝ) (rFactor eps : ℝ) (verts : List (V3 ℝ))
+    (tris : List (Nat × Nat × Nat)) (h : Kern.TrisInRange verts.length tris) :
+    Kern.getIntersectingTriangles id (r.map (l * ·)) rFactor (l * eps) (verts.map (Kern.vs l)) tris
+      = Kern.getIntersectingTriangles id r rFactor eps verts tris :=
+  Kern.getIntersectingTriangles_scale l hl r rFactor eps verts tris h
+
+example : 1 ∈ Kern.getIntersectingTriangles id (some (1000 * 10)) (3 / 2) (1000 * (1 / 1000000)) (Kern.witVerts.map (Kern.vs 1000)) Kern.witTris := by
+  have h := selfint_scale_covariant 1000 (by norm_num) (some 10) (3 / 2) (1 / 1000000) _ _ Kern.witTris_inRange
+  simp only [Option.map_some] at h
+  rw [h]; exact Kern.wit_mesh_reported.2
+
+/- FULL (C12 flavour): `selfint_scale_invariant` — all lengths × l > 0 with the code's fixed `eps = 1e-6` gives the same verdict.
+   False: -/
+/-- the absolute `eps` breaks unit invariance already for the primitive: the segment (1/4,1/4,±1) through the facet
+(0,0,0),(1,0,0),(0,1,0) is reported with the default `eps = 1e-6`; the same configuration at 1e-7 of the size is not
+(reproduced on the real code: a spike through a box face is reported at size 1, not at size 1e-6) -/
+theorem segfacet_not_scale_invariant :
+    ∃ (l : ℝ) (s0 s1 : V3 ℝ) (t : Kern.Tri ℝ), 0 < l ∧ Kern.segFacet id (1 / 1000000) s0 s1 t = true ∧
+      Kern.segFacet id (1 / 1000000) (Kern.vs l s0) (Kern.vs l s1) (Kern.triScale l t) = false :=
+  ⟨1 / 10000000, Kern.witS0, Kern.witS1, Kern.witT, by norm_num, Kern.wit_segFacet, Kern.wit_segFacet_small⟩
 
 end MagpyVerif.C16
